@@ -39,4 +39,6 @@ def run(P, ctx):
             res.violated(rid, bid, f"publishing can block: reaches {hit[0]} via {' -> '.join(hit[1])}", where=f"{b.file}:{b.line}", witness=list(hit[1]))
         else:
             res.holds(rid, bid, f"{len(P.reach_closure(start))} functions reachable, none blocks", where=f"{b.file}:{b.line}")
+    from rules import leftright
+    leftright.check(P, res, "C08-3", r"^fibre::<?spmc::topic::", 4)
     return res
